@@ -166,7 +166,72 @@ pub fn generate(repo: &PathBuf) -> Result<String, String> {
         other => return Err(format!("calculate_get_closest_peers: unexpected comparator {other}")),
     };
 
-    let mut s = header("ant-protocol/src/lib.rs, ant-networking/src/{lib,cmd}.rs, ant-node/src/node.rs");
+    // ---- the producer of every range bound: the `set_farthest_record_interval` arm of `SwarmDriver::run` (driver.rs)
+    let drv = parse_file(&repo.join("ant-networking/src/driver.rs"))?;
+    let run = impl_fn(&drv, "SwarmDriver", None, "run")?;
+    let run_s = run.block.to_token_stream().to_string().replace(' ', "");
+    let need = [
+        "letestimated_network_size=Self::estimate_network_size(peers_in_non_full_buckets,num_of_full_buckets);",
+        "ifestimated_network_size<=CLOSE_GROUP_SIZE{",
+        "letdensity=U256::MAX/U256::from(estimated_network_size);",
+        "letdensity_distance=density*U256::from(CLOSE_GROUP_SIZE);",
+        "letclosest_k_peers=self.get_closest_k_value_local_peers();",
+        "ifclosest_k_peers.len()<=CLOSE_GROUP_SIZE+2{continue;}",
+        "letclose_peers_distance=self_addr.distance(&NetworkAddress::from_peer(closest_k_peers[CLOSE_GROUP_SIZE+1]));",
+        "letclose_peers_u256=convert_distance_to_u256(&close_peers_distance);",
+        "letdistance=std::cmp::max(density_distance,close_peers_u256);",
+        ".set_distance_range(distance);",
+        "self.replication_fetcher.set_replication_distance_range(distance);",
+        "letself_addr=NetworkAddress::from_peer(self.self_peer_id);",
+    ];
+    for n in need {
+        if run_s.matches(n).count() != 1 {
+            return Err(format!("driver.rs:SwarmDriver::run: the responsible-range computation no longer contains exactly one `{n}`"));
+        }
+    }
+    let ev = parse_file(&repo.join("ant-networking/src/event/mod.rs"))?;
+    let ens = impl_fn(&ev, "SwarmDriver", None, "estimate_network_size")?;
+    if ens.block.to_token_stream().to_string().replace(' ', "") != "{(peers_in_non_full_buckets+1)*(2_usize.pow(num_of_full_bucketsasu32))}" {
+        return Err("event/mod.rs:estimate_network_size: unexpected body".into());
+    }
+    let gck = impl_fn(&drv, "SwarmDriver", None, "get_closest_k_value_local_peers")?;
+    let gck_s = gck.block.to_token_stream().to_string().replace(' ', "");
+    if !(gck_s.contains("std::iter::once(self.self_peer_id).chain(peers).take(K_VALUE.get()).collect()") && gck_s.contains(".get_closest_local_peers(&self_peer_id)")) {
+        return Err("driver.rs:get_closest_k_value_local_peers: unexpected shape (self first, then the closest local peers, K_VALUE in all)".into());
+    }
+    // ---- the storage challenge (ant-node/src/node.rs): the responder's and the challenger's selections
+    let rx = impl_fn(&node, "Node", None, "respond_x_closest_record_proof")?;
+    let rx_s = rx.block.to_token_stream().to_string().replace(' ', "");
+    for n in [
+        "ifdifficulty==1{",
+        "all_chunk_addrs.sort_by_key(|addr|key.distance(addr));",
+        "letworkload_factor=std::cmp::min(difficulty,CLOSE_GROUP_SIZE);",
+        "foraddrinall_chunk_addrs.iter().take(workload_factor){",
+    ] {
+        if rx_s.matches(n).count() != 1 {
+            return Err(format!("node.rs:respond_x_closest_record_proof: no longer contains exactly one `{n}`"));
+        }
+    }
+    let sc = impl_fn(&node, "Node", None, "storage_challenge")?;
+    let sc_s = sc.block.to_token_stream().to_string().replace(' ', "");
+    for n in [
+        "closest_peers.into_iter().take(CLOSE_GROUP_SIZE).collect_vec()",
+        "ifclosest_peers.len()<CLOSE_GROUP_SIZE{",
+        "ifnum_of_targets<50{",
+        "verify_candidates.sort_by_key(|addr|self_addr.distance(addr));",
+        "letindex:usize=OsRng.gen_range(0..num_of_targets/2);",
+        "lettarget=verify_candidates[index].clone();",
+        "letdifficulty=CLOSE_GROUP_SIZE;",
+        "verify_candidates.sort_by_key(|addr|target.distance(addr));",
+        "letexpected_targets=verify_candidates.into_iter().take(difficulty);",
+        "ifpeer_id==network.peer_id(){continue;}",
+    ] {
+        if sc_s.matches(n).count() != 1 {
+            return Err(format!("node.rs:storage_challenge: no longer contains exactly one `{n}`"));
+        }
+    }
+
+    let mut s = header("ant-protocol/src/lib.rs, ant-networking/src/{lib,cmd,driver,event/mod}.rs, ant-node/src/node.rs");
     s.push_str("namespace SafeNet.Gen.Distance\n");
     s.push_str(&format!("def closeGroupSize : Nat := {close_group}\n"));
     s.push_str(&format!("/-- `trim_start_matches({ts:?})` -/\ndef trimStart : List Nat := {}\n", lean_str(&ts)));
@@ -186,6 +251,10 @@ pub fn generate(repo: &PathBuf) -> Result<String, String> {
     s.push_str(&format!("/-- `calculate_get_closest_peers` range branch keeps `<=` (true) or `<` (false) -/\ndef closestRangeLe : Bool := {}\n", lean_bool(closest_le)));
     s.push_str(&format!("/-- `get_all_close_peers_in_range_or_close_group`: the client's own id is removed before the sort/`NotEnoughPeers` check/truncation -/\ndef clientStripsSelfBeforeSort : Bool := {}\n", lean_bool(strip_before_sort)));
     s.push_str(&format!("/-- `CLOSE_GROUP_SIZE + CLOSE_GROUP_SIZE / 2` -/\ndef expandedCloseGroup : Nat := {expanded}\n"));
+    s.push_str("/-- responsible-range computation of `SwarmDriver::run`: nothing is set unless `estimated_network_size > CLOSE_GROUP_SIZE` and the self-inclusive K list is longer than `CLOSE_GROUP_SIZE + 2`; the neighbour whose distance is used is `closest_k_peers[CLOSE_GROUP_SIZE + 1]`; the bound is the `max` of that distance and `U256::MAX / estimated_network_size * CLOSE_GROUP_SIZE` -/\n");
+    s.push_str(&format!("def rangeMinEstimateExclusive : Nat := {close_group}\ndef rangeMinListLenExclusive : Nat := {}\ndef rangeNeighbourIndex : Nat := {}\ndef rangeDensityFactor : Nat := {close_group}\n", close_group + 2, close_group + 1));
+    s.push_str("/-- storage challenge: the responder answers for the `min(difficulty, CLOSE_GROUP_SIZE)` held chunks nearest the key; the challenger needs 50 chunks, picks the target among the nearer half to itself, expects the `CLOSE_GROUP_SIZE` nearest the target, and challenges the first `CLOSE_GROUP_SIZE` of the self-inclusive K list except itself -/\n");
+    s.push_str(&format!("def challengeWorkloadCap : Nat := {close_group}\ndef challengeMinCandidates : Nat := 50\ndef challengeDifficulty : Nat := {close_group}\ndef challengePeersTaken : Nat := {close_group}\n"));
     s.push_str("end SafeNet.Gen.Distance\n");
     Ok(s)
 }
